@@ -196,6 +196,28 @@ def run (cases : List CaseBlock) (args : List String) : IO Unit := do
               projs := projs ++ ["C15", "C16", "C17", "C18", "C19"]
           | none => pure ()
         sigs := sigs ++ runSig r o
+        match args.dropWhile (· != "state") with
+        | _ :: k :: _ =>
+          if r.run.name == "u" then
+            let k := k.toNat!
+            let r' : RunIn := { r.run with args := { r.run.args with maxSimIterations := k } }
+            let (o', _) := Mb.Sim.modelRun replayOracle modelBudget p.input r' orc
+            match o'.final with
+            | some st =>
+              let showSide (sd : Side OState) : String :=
+                s!"acts={sd.schedAction.map (fun x => x.map (fun a => (actStr a.action, a.time - t0)))} timers={sd.schedTimer.map (fun x => x.map (· - t0))} until={sd.blockingUntil.map (· - t0)} byp={sd.blockingBypassable}"
+              IO.println s!"state after {k} iterations: now={st.now - t0}"
+              IO.println s!"  client {showSide st.client}"
+              IO.println s!"  server {showSide st.server}"
+              IO.println s!"  server internal={st.sq.server.internal.data.map (fun e => evStr (SimEvent.shift t0 e))}"
+              IO.println s!"  server blocking={st.sq.server.blocking.data.map (fun e => evStr (SimEvent.shift t0 e))}"
+              IO.println s!"  server bypassable={st.sq.server.bypassable.data.map (fun e => evStr (SimEvent.shift t0 e))}"
+              IO.println s!"  server base={st.sq.server.base.data.map (fun e => evStr (SimEvent.shift t0 e))}"
+              IO.println s!"  client internal={st.sq.client.internal.data.map (fun e => evStr (SimEvent.shift t0 e))}"
+              IO.println s!"  agg c={st.net.clientAgg} s={st.net.serverAgg} pendingAgg={st.net.aggQueue.data.map (fun a => (a.time - t0, a.delay, a.client))}"
+              IO.println s!"  pickDecide={repr (pickDecide st)}"
+            | none => pure ()
+        | _ => pure ()
         if args.contains "dump" then
           IO.println s!"dump {c.id} run {r.run.name} stop={repr o.stop}"
           for x in o.stream do
